@@ -78,6 +78,26 @@ func (e *Eval) doCall(fr *Frame, cc *ssa.CallCommon, args []Val, fnval Val, st *
 			case fnval.ParamFn != "":
 				oc = e.callParamFn(fr, cc, fnval.ParamFn, args, st, cur, site)
 			default:
+				// a value of a named function type with a `functype` contract
+				if nt, ok := types.Unalias(cc.Value.Type()).(*types.Named); ok && nt.Obj().Pkg() != nil {
+					key := "functype:" + nt.Obj().Pkg().Name() + "." + nt.Obj().Name()
+					if k, ok := e.p.cs.Contracts[key]; ok {
+						var pnames []string
+						var ptypes []types.Type
+						for i := 0; i < sig.Params().Len(); i++ {
+							n := fmt.Sprintf("arg%d", i)
+							if i < len(k.Params) {
+								n = k.Params[i]
+							}
+							pnames = append(pnames, n)
+							ptypes = append(ptypes, sig.Params().At(i).Type())
+						}
+						c.Assume("contract assumed of every value of function type " + nt.Obj().Name())
+						e.ghostCount(st, "$c."+nt.Obj().Name())
+						oc = e.applyContract(fr, k, e.p.prog.Package(nt.Obj().Pkg()), pnames, ptypes, k.Results, sig, args, st, cur, site)
+						break
+					}
+				}
 				c.Unsupported("call of unknown function value %s in %s", cc.Value.Name(), fr.fn)
 				oc = normal(e.resultHavoc(site, sig, cur)...)
 			}
